@@ -605,6 +605,8 @@ func lean(fns []*fn, dir string) string {
 		fmt.Fprintf(&b, "  { name := %s, exported := %v, lock := %s, irregular := %v,\n    lib := [%s],\n    calls := [%s] }%s\n",
 			leanStr(f.Name), f.Exported, lock, f.Irregular, strings.Join(libs, ", "), strings.Join(calls, ", "), sep)
 	}
-	b.WriteString("]\n\nend OW.Gen\n")
+	b.WriteString("]\n\n")
+	b.WriteString("/-- the lock discipline holds on the graph above (kernel evaluation of the checker) -/\n")
+	b.WriteString("theorem ioLockGraph_ok : lockCheck ioLockGraph = true := by decide +kernel\n\nend OW.Gen\n")
 	return b.String()
 }
